@@ -406,6 +406,57 @@ func (x *c14x) handshake() {
 		}
 	}
 
+	// --- K.order: buffers are recycled while every goroutine is parked between its stop and its ack.
+	if fl := k.flow("K.order", c14Rac, "concReader", "stopAnyWorkInProgress"); fl != nil {
+		info := fl.F.Info()
+		recycle := k.g.LookupMethod(c14Rac, "concReader", "recycleBuffers")
+		isRecycle := func(n ast.Node) bool {
+			return recycle != nil && core.Guaranteed(n, func(call *ast.CallExpr) bool { return core.IsCallTo(info, call, recycle) })
+		}
+		var stopLoop, ackLoop *ast.ForStmt
+		for _, st := range fl.F.Decl.Body.List {
+			fs, ok := st.(*ast.ForStmt)
+			if !ok {
+				continue
+			}
+			ast.Inspect(fs.Body, func(m ast.Node) bool {
+				if send, ok := m.(*ast.SendStmt); ok {
+					if core.FieldOf(info, send.Chan, fStopc) && stopLoop == nil {
+						stopLoop = fs
+					}
+					if core.FieldOf(info, send.Chan, fAckc) && ackLoop == nil {
+						ackLoop = fs
+					}
+				}
+				return true
+			})
+		}
+		keep := fl.Param(0)
+		if stopLoop == nil || ackLoop == nil || recycle == nil {
+			c.Undecided("K.order", fl.F.Name(), "the stop round, recycleBuffers and the ack round are found", "loop or method not found")
+		} else {
+			// (a) recycleBuffers only after the stop round is complete
+			k.mustPass("K.order.after", fl.F.Name()+"[recycleBuffers after the stop round]",
+				"buffers are recycled and the work channels drained only after every goroutine has received its stop message (the stop loop has run to completion): before that a Worker may still be filling a loaned buffer or queueing old work",
+				fl, core.Query{Exit: isRecycle, Events: []core.Event{{Edge: func(cond ast.Expr, ci *core.CondInfo, taken bool) bool { return cond == stopLoop.Cond && !taken }}}})
+			// (b) the ack round starts only after recycleBuffers (for a cancel)
+			firstAck := ackLoop.Body.List[0]
+			k.mustPass("K.order.before", fl.F.Name()+"[recycleBuffers before the ack round]",
+				"on a cancel (keepWorking) the buffers are recycled and the request / response channels drained before the first ack is sent: a goroutine released by its ack may take an old-region request out of reqc before it is drained and deliver it after resc was drained, which files stale work under an old offset and leaves Read waiting forever for the next one",
+				fl, core.Query{
+					Exit:   func(n ast.Node) bool { return n.Pos() >= firstAck.Pos() && n.End() <= ackLoop.End() },
+					Events: []core.Event{{Node: isRecycle}},
+					Exempt: func(cond ast.Expr, ci *core.CondInfo, taken bool) bool {
+						ce, neg := boolCond(cond)
+						if neg {
+							taken = !taken
+						}
+						return !taken && keep != nil && fl.Obj(ce) == keep // !keepWorking: a close, nothing to recycle
+					},
+				})
+		}
+	}
+
 	// --- K.ack: both goroutines acknowledge before returning or carrying on.
 	nAck, nExit := 0, 0
 	for _, name := range []string{"runRWorker", "runRManager"} {
@@ -1400,6 +1451,64 @@ func (x *c14x) cursor() {
 					return seekTo != nil && core.IsCallTo(info, call, seekTo) && len(call.Args) == 1 && isNewPos(call.Args[0])
 				})
 		}
+	}
+
+	// Q.window: nextChunk installs the whole chunk's DRange and nothing else.
+	if fl := k.flow("Q.window", c14Rac, "Reader", "nextChunk"); fl != nil {
+		info := fl.F.Info()
+		fDR := x.field("Reader", "dRange")
+		next := k.g.LookupMethod(c14Rac, "ChunkReader", "NextChunk")
+		chunkVars := fl.VarsDenoting(func(e ast.Expr) bool {
+			call, ok := ast.Unparen(e).(*ast.CallExpr)
+			return ok && next != nil && core.IsCallTo(info, call, next)
+		})
+		isChunkDRange := func(e ast.Expr) bool {
+			sel, ok := ast.Unparen(e).(*ast.SelectorExpr)
+			return ok && sel.Sel.Name == "DRange" && anyOf(fl, chunkVars)(sel.X)
+		}
+		var bad []string
+		nStores := 0
+		isWholeStore := func(n ast.Node) bool {
+			as, ok := n.(*ast.AssignStmt)
+			if !ok || as.Tok != token.ASSIGN || len(as.Lhs) != len(as.Rhs) {
+				return false
+			}
+			for i, l := range as.Lhs {
+				if core.FieldOf(info, l, fDR) && isChunkDRange(as.Rhs[i]) {
+					return true
+				}
+			}
+			return false
+		}
+		ast.Inspect(fl.F.Decl.Body, func(n ast.Node) bool {
+			touches := func(e ast.Expr) bool {
+				e = ast.Unparen(e)
+				if ie, ok := e.(*ast.IndexExpr); ok {
+					e = ie.X
+				}
+				return core.FieldOf(info, e, fDR)
+			}
+			switch st := n.(type) {
+			case *ast.AssignStmt:
+				for _, l := range st.Lhs {
+					if touches(l) {
+						nStores++
+						if !isWholeStore(st) {
+							bad = append(bad, x.pos(st.Pos())+": `"+core.Src(k.g.Fset, st)+"` changes the window to something other than the chunk's whole DRange")
+						}
+					}
+				}
+			case *ast.IncDecStmt:
+				if touches(st.X) {
+					nStores++
+					bad = append(bad, x.pos(st.Pos())+": `"+core.Src(k.g.Fset, st)+"`")
+				}
+			}
+			return true
+		})
+		c.Check(len(bad) == 0 && nStores > 0, "Q.window.only", fl.F.Name(), "nextChunk (state A → state B) sets the window dRange to the new chunk's whole DRange and to nothing else: the decompressor it installs starts at the chunk's first byte and yields dRange.Size() bytes, and readExplicitData discards up to pos; a window that starts later than the decompressor makes the chunk look too large (\"invalid chunk (too large)\") or returns shifted bytes", nStores, strings.Join(bad, "\n"))
+		k.mustPass("Q.window.set", fl.F.Name()+"[return nil]", "every successful nextChunk has installed the chunk's DRange as the window", fl, core.Query{
+			Exit: c14NilErrReturn(fl), FuncEnd: true, Events: []core.Event{{Node: isWholeStore}}})
 	}
 
 	// Q.clamp: Reader.Read never copies past posLimit.
